@@ -110,12 +110,24 @@ def run_case(case):
         arg = seq + (constants.NIBBLE_TERMINATOR,) if term else seq
         enc = impl("encode_nibbles", nib_utils.encode_nibbles, arg)
         expect_eq("hp-equals-yellow-paper", enc, hp(seq, term), f"encode_nibbles({arg})")
+        # the same sequence given as a list (the library itself passes lists in places)
+        enc_l = impl("encode_nibbles", nib_utils.encode_nibbles, list(arg))
+        expect_eq("hp-equals-yellow-paper", enc_l, hp(seq, term), f"encode_nibbles(list {list(arg)})")
+        for a in (arg, list(arg)):
+            expect_eq("terminator-helpers", bool(impl("is_nibbles_terminated", nib_utils.is_nibbles_terminated, a)), term,
+                      f"is_nibbles_terminated({a!r})")
+            expect_eq("terminator-helpers", tuple(impl("add_nibbles_terminator", nib_utils.add_nibbles_terminator, a)),
+                      seq + (constants.NIBBLE_TERMINATOR,), f"add_nibbles_terminator({a!r})")
+            expect_eq("terminator-helpers", tuple(impl("remove_nibbles_terminator", nib_utils.remove_nibbles_terminator, a)),
+                      seq, f"remove_nibbles_terminator({a!r})")
         dec = impl("decode_nibbles", nib_utils.decode_nibbles, enc)
         expect_eq("hp-decode-inverts", tuple(dec), arg, f"decode_nibbles(encode_nibbles({arg}))")
         expect_eq("hp-decode-inverts", hp_decode(enc), (seq, term), "reference decode of the encoding")
         if term:
             lk = impl("compute_leaf_key", nodes.compute_leaf_key, seq)
             expect_eq("hp-equals-yellow-paper", lk, hp(seq, True), f"compute_leaf_key({seq})")
+            lk = impl("compute_leaf_key", nodes.compute_leaf_key, list(arg))
+            expect_eq("hp-equals-yellow-paper", lk, hp(seq, True), f"compute_leaf_key(list {list(arg)})")
         else:
             ek = impl("compute_extension_key", nodes.compute_extension_key, seq)
             expect_eq("hp-equals-yellow-paper", ek, hp(seq, False), f"compute_extension_key({seq})")
